@@ -24,7 +24,7 @@ MANIFEST = {
                  "correspondence with the real CLI tool",
 }
 
-REQUIRED = ["KV.C12.ctl_output", "KV.C12.ctl_no_deadlock", "KV.C12.ctl_terminates", "KV.C12.ctl_output_arpa", "KV.C12.ctl_output_raw",
+REQUIRED = ["KV.C12.ctl_output", "KV.C12.ctl_no_deadlock", "KV.C12.ctl_terminates", "KV.C12.ctl_queues_are_fifo", "KV.C12.pcqueue_is_fifo", "KV.C12.ctl_output_arpa", "KV.C12.ctl_output_raw",
             "KV.C12.Old.not_ctl_no_deadlock", "KV.C12.Old.not_ctl_output_raw", "KV.C12.Old.not_ctl_output_last"]
 
 TIMEOUT = 20
@@ -77,7 +77,7 @@ class Env:
 
 def run_config(env, case, threads, batch, tag, timeout=TIMEOUT):
     return G.run_filter(env.fbin, env.work, tag, case["mode"], case["context"], case["fmt"], threads, batch,
-                        case["vp"], case["model"], timeout=timeout)
+                        case["vp"], case["model"], timeout=timeout, phrase=bool(case.get("phrase")))
 
 
 def classify(ref_files, st, files, multiple):
@@ -190,8 +190,20 @@ def check_case(env, case, configs, reps, pool, model_seeds=2):
     case["vp"], case["mp"] = vp, mp
     st1, ref, cmd1 = run_config(env, case, 1, 1, "ref")
     pfx = os.path.join(env.work, "d%d" % env.n)
-    info = env.drv.job("fixed", case["mode"], case["context"], case["fmt"], 1, 1, 0, vp, mp, pfx)
     bad = False
+    if case.get("phrase"):
+        # phrase mode: the reference must respect the Tiles lower bound (C11); the grid compares with it byte for byte
+        if st1 != "ok":
+            ctx.violation("threads:1 phrase run failed (%s)" % st1, {"cmd": cmd1, "model": case["model"].decode("latin-1"),
+                                                                      "vocab": case["vocab"].decode("latin-1")})
+            return True
+        d, kind = G.phrase_verdict(case, ref, env.drv, vp, mp, pfx)
+        if d is not None:
+            ctx.violation("phrase mode threads:1: " + d, {"cmd": cmd1, "model": case["model"].decode("latin-1"),
+                                                            "vocab": case["vocab"].decode("latin-1")}, no_input=(kind != "tool"))
+            return True
+        return grid(env, case, configs, reps, pool, ref, multiple) or bad
+    info = env.drv.job("fixed", case["mode"], case["context"], case["fmt"], 1, 1, 0, vp, mp, pfx)
     if info["head"] == "error":
         if st1 == "ok":
             ctx.violation("driver rejects an input the tool accepts", {"case": repr(case)[:3000], "driver": info["raw"]}, no_input=True)
@@ -222,7 +234,13 @@ def check_case(env, case, configs, reps, pool, model_seeds=2):
             ctx.violation("model run under a random schedule is not the sequential result (theorem ctl_output contradicted?)",
                           {"driver": mi["raw"][:3000], "threads": t, "batch": b}, no_input=True)
             bad = True
-    # the grid on the real tool
+    return grid(env, case, configs, reps, pool, ref, multiple) or bad
+
+
+def grid(env, case, configs, reps, pool, ref, multiple):
+    """the thread x batch grid on the real tool against the threads:1 reference"""
+    ctx = env.ctx
+    bad = False
     jobs = []
     for (t, b) in configs:
         for r in range(reps if t > 1 else 1):
@@ -236,9 +254,10 @@ def check_case(env, case, configs, reps, pool, model_seeds=2):
     for j, (st, files, cmd) in pool.map(one, jobs):
         t, b, r = j
         d = classify(ref, st, files, multiple)
-        key = (case["mode"], case["context"], case["fmt"], tuple(counts), t, b, case["model"][:64])
+        key = (case["mode"], bool(case.get("phrase")), case["context"], case["fmt"], tuple(counts), t, b, case["model"][:64])
         ctx.count(key, nontrivial=t > 1 and sum(counts) > 0)
         ctx.hist("threads", t)
+        ctx.hist("phrase", bool(case.get("phrase")))
         ctx.hist("batch", b if b <= 8 else ">8")
         ctx.hist("status", st if d is None else ("VIOLATION:" + (d if d in ("hang", "crash", "error") else "diff")))
         if t > 1:
@@ -257,6 +276,10 @@ def check_case(env, case, configs, reps, pool, model_seeds=2):
 
 
 def gen_case(rng, tier):
+    if rng.random() < 0.2:
+        case = G.gen_phrase_case(rng, tier)
+        case["b"] = rng.choice([1, 2, 3, 4, 7])
+        return case
     mode = rng.choice(["single", "union", "multiple", "multiple", "multiple"])
     fmt = rng.choice(["arpa", "arpa", "raw"])
     context = rng.random() < 0.3
